@@ -52,12 +52,21 @@ def main():
     mine = [c for i, c in enumerate(all_cases) if i % nshards == shard]
     emit({"planned": len(mine), "total": len(all_cases)})
     per_case = mod.TIMEOUTS[tier][0]
+    # Cases are independent experiments: each starts from the process-wide defaults.  fandango raises the global
+    # repetition cap during hard runs and never lowers it (that leak is the subject of C18, which runs its
+    # experiments in child processes); without this reset a case's workload and cost would depend on which cases
+    # the worker happened to run before it.
+    from fandango.language.grammar import nodes as _nodes
+
+    default_cap = _nodes.MAX_REPETITIONS
     t_end = time.time() + mod.TIMEOUTS[tier][1] * 0.92
     for c in mine:
         if time.time() > t_end:
             emit({"case": c.get("key"), "status": "skipped-budget"})
             continue
         t0 = time.time()
+        if not getattr(mod, "KEEP_GLOBALS", False):
+            _nodes.MAX_REPETITIONS = default_cap
         try:
             res = run_with_timeout(lambda: mod.run_case(c), per_case)
         except CaseTimeout:
